@@ -38,6 +38,7 @@ def run(prog, rep, tier):
     fields = r10_1(prog, rep)
     r10_2_3_4(prog, rep, fields)
     r10_5(prog, rep)
+    shared.dtype_narrowing(prog, rep, "R10.6", fns={"formulae.terms.terms.GroupSpecificTerm.eval_new_data", "formulae.terms.variable.Variable.eval_new_data_categoric", "formulae.terms.call.Call.eval_new_data_categoric", "formulae.matrices.GroupEffectsMatrix.evaluate_new_data"})
     rep.floor("R10.1", 6)
     rep.floor("R10.2", 8)
     rep.floor("R10.3", 16)
